@@ -64,7 +64,7 @@ Design(o, e, P, G, V) ==
        bnd == An(P, sc, e, "bounds")
    IN {<<"T1-REPAIR", c[1], c[2]>> : c \in Violations(P, G, V, bnd)}
       \cup {<<"T1-ASWRITTEN", c[1], c[2]>> : c \in Violations(P, G, V, lit)}
-      \cup (IF o.res.k = "ok" /\ (lit.lin # o.res.l \/ lit.pos # SetOf(o.res.p) \/ lit.neg # SetOf(o.res.n))
+      \cup (IF o.res.k = "ok" /\ (lit.lin # o.res.l \/ (lit.lin /\ (lit.pos # SetOf(o.res.p) \/ lit.neg # SetOf(o.res.n))))
             THEN {<<"T1-DIFF", "", "">>} ELSE {})
 
 Judge(o) ==
